@@ -146,7 +146,8 @@ def vacuity(cases, strict):
     # the off-by-one classes must be present at (nearly) every width 40..200, not just somewhere
     for cls in ('glued', 'pushed', 'asmi', 'asmc', 'skooli', 'skoolc', 'band', 'regfit'):
         n['widths-covered:' + cls] = len(widths[cls])
-        if len(widths[cls]) < 150:
+        # (a register table that fits is in 4 of 6 sweep documents, one in the band in every one)
+        if len(widths[cls]) < (90 if cls == 'regfit' else 150):
             missing.append('%s at only %d of 161 widths' % (cls, len(widths[cls])))
     if missing and strict:
         raise MachineryError('C18 generator did not exercise: %s' % ', '.join(missing))
@@ -262,9 +263,9 @@ def run(tier):
                 'skool2asm.main, skool2html.main, sna2skool.main; distinct_nontrivial = distinct (tool, width, section '
                 'kind/group class, number of words). Register descriptions and instruction-level comments also hold '
                 '#TABLE / #LIST blocks (alone / behind / in front of / between text, wrap flags, header rows, 1-3 columns, '
-                'with and without a :w column): every sweep document has three register tables whose widths are 3 of the '
+                'with and without a :w column): every sweep document has two register tables whose widths are 2 of the '
                 '12 classes a-3..a+3, mid, t-1..t+2 (a = width left behind the register name, t = line width - 2) so that '
-                'each width sees the band (a, t], a list and a plain description ending at / near a, and one instruction '
+                'each width sees the band (a, t], a list or a plain description ending at / near a, and one instruction '
                 'comment with a table of width a-3..a+3 of the comment field or a tight list')
     rep.assumptions = ['html.parser tokenises the entry pages (trusted projection)',
                        'tables are generated without colspan/rowspan and with at most one :w column; at most one block per '
